@@ -245,7 +245,7 @@ def tie_pattern(rng):
 def gen_tie_case(rng, patterns, exact_model):
     """sources that ARE a model of the grid: flag-4 bands = log10 of the model's fluxes, every limit = the model's flux in
     that band.  All residuals, A_V and scale are exactly 0 in float arithmetic, so the model lies exactly on every limit.
-    exact_model: the planted model's fluxes are 1 or 10 mJy, whose log10 the driver also computes exactly"""
+    exact_model: the planted model's fluxes are 1 ('ones') or 1 / 10 mJy, whose log10 the driver also computes exactly"""
     nb = len(patterns[0])
     for attempt in range(40):
         case = gen_case(rng, patterns, None)
@@ -258,7 +258,9 @@ def gen_tie_case(rng, patterns, exact_model):
         ok = True
         for src in case['sources']:
             m = rng.randrange(nm)
-            if exact_model:
+            if exact_model == 'ones':
+                case['models'][m] = [1.] * nb       # log10(1) = 0 exactly, in numpy (any code path) and in the driver
+            elif exact_model:
                 case['models'][m] = [rng.choice([1., 10.]) for _ in range(nb)]
             # same flux in every aperture: interpolation in aperture returns it exactly
             case['grow'][m] = [[1.] * len(case['aps']) for _ in range(nb)]
@@ -276,7 +278,7 @@ def gen_tie_case(rng, patterns, exact_model):
 
 def tie_cases(seed, tier, stream=PID):
     k = 0
-    for exact_model in (True, False):
+    for exact_model in ('ones', True, False):
         yield gen_tie_case(case_rng(seed, stream, 'tie%d' % k), TIE_PATTERNS, exact_model)
         k += 1
     for _ in range(N_TIE[tier]):
@@ -287,7 +289,7 @@ def tie_cases(seed, tier, stream=PID):
             fl = tie_pattern(rng)
             if len(fl) == n:
                 pats.append(fl)
-        yield gen_tie_case(rng, pats, rng.random() < 0.5)
+        yield gen_tie_case(rng, pats, rng.choice(['ones', True, False, False]))
         k += 1
 
 
@@ -462,12 +464,17 @@ def arithmetic(s, a, branches, tie_name=None, mode=''):
         exp = 0.
         skip = False
         hard = False
+        # a constructed tie counts as exact only if the code reproduced the model bit for bit: A_V (and scale) exactly 0 and
+        # every predicted log flux equal to the source's (numpy's vectorised log10 is not guaranteed to round alike on
+        # arrays of different shape; when it does not, this is an ordinary near-tie and is skipped as a margin case)
+        exact = (nme == tie_name and float(a['av'][row]) == 0. and float(a['sc'][row]) == 0.
+                 and all(lv[j] is None or pred[j] == lv[j][0] for j in range(len(lv))))
         for j, f in enumerate(s['flags']):
             if f in (1, 4):
                 exp += ((lv[j][0] - pred[j]) / lv[j][1]) ** 2
             elif f in (2, 3):
                 lf, conf = lv[j]
-                if nme == tie_name and pred[j] == lf:
+                if nme == tie_name and exact:
                     # constructed tie: the reported model lies EXACTLY on the limit (every quantity is exactly 0 in float
                     # arithmetic), which is not the forbidden side: no penalty, and no margin to hide behind
                     branches.add('exact_tie_' + mode)
